@@ -217,3 +217,157 @@ def r8_1(ctx):
                 why += "; and get_best_move can return without sending (empty root move list: the move loop body never runs)"
         ctx.ob(key, ok_i or ok_ii, b.where(b.term_loc(bb)), why)
     ctx.floor("try_recv polling sites", len(tr), 1)
+
+
+def r17_4(ctx):
+    """`go` parser: tokens are scanned one at a time; a token that is not a known name advances the
+    scan by exactly one token, a known name consumes itself and its value."""
+    from wa.cond import dominating_facts
+    from wa.linear import linear
+    f = ctx.facts
+    b = f.body("uci::parse_go_command")
+    ctx.note_fn("uci::parse_go_command")
+    ex = Exprs(b)
+    loops = b.loops()
+    if len(loops) != 1:
+        raise ShapeNotRecognised("parse_go_command: expected one scanning loop, found %d" % len(loops))
+    h, loop = next(iter(loops.items()))
+    # the counter: a usize local incremented inside the loop
+    rd = b.reaching()
+    counters = []
+    for l, name in b.names.items():
+        if b.local_ty(l) != "usize":
+            continue
+        ins = [(loc, k) for loc, k in rd.all_sites(l) if loc[0] in loop]
+        if ins:
+            counters.append(l)
+    if len(counters) != 1:
+        raise ShapeNotRecognised("parse_go_command: cannot establish that an unknown token advances the scan by exactly one token (no single index counter; the tokens are not scanned one at a time)")
+    i = counters[0]
+    # token tests: Eq(commands[i], "name")
+    names = {}
+    for s in loop:
+        if b.term(s)["k"] != "switch":
+            continue
+        d = ex.switch_discr(s)
+        if d[0] == "bin" and d[1] == "Eq":
+            for x, k in ((strip_refs(d[2]), strip_refs(d[3])), (strip_refs(d[3]), strip_refs(d[2]))):
+                if k[0] == "str":
+                    idx = [y[2][1] for y in subexprs(x) if y[0] == "call" and y[1].endswith("::index")] + \
+                          [y[2] for y in subexprs(x) if y[0] == "index"]
+                    ok = bool(idx) and strip_refs(idx[0])[0] == "var" and strip_refs(idx[0])[1] == i
+                    t = b.term(s)
+                    ft = [tg for v, tg in t["cases"] if v == 0]
+                    names[k[1]] = (s, t["otherwise"], ft[0] if ft else None, ok)
+    ctx.floor("known go tokens", len(names), 5)
+    for nm, (s, tt, ft, ok) in sorted(names.items()):
+        ctx.ob("parse_go_command:token(%s):tests-current-token" % nm, ok, b.where(b.term_loc(s)), "`%s` is compared with commands[i]" % nm)
+    # increments: count +1 steps of i along one iteration on the default path and on each known path
+    incs = {}
+    for loc, k in rd.all_sites(i):
+        if loc[0] in loop and k == "whole":
+            e = ex.rvalue(b.stmts(loc[0])[loc[1]]["rv"], loc)
+            le = linear(e)
+            if le is not None and len(le[0]) == 1 and list(le[0].values()) == [1] and next(iter(le[0]))[0] == "var" and next(iter(le[0]))[1] == i:
+                incs[loc[0]] = le[1]
+            else:
+                incs[loc[0]] = None
+
+    def steps_from(start, removed_edges):
+        """Set of possible total increments along one iteration starting at block `start`."""
+        out = set()
+        def rec(x, acc, seen):
+            if x not in loop:
+                return          # leaving the loop: not an iteration step
+            if x == h:
+                out.add(acc)
+                return
+            if x in seen:
+                return
+            a2 = acc
+            if x in incs:
+                if incs[x] is None:
+                    out.add(None)
+                    return
+                a2 = acc + incs[x]
+            for y in b.succ.get(x, []):
+                if (x, y) in removed_edges:
+                    continue
+                rec(y, a2, seen | {x})
+        rec(start, 0, set())
+        return out
+
+    all_true = {(s, tt) for nm, (s, tt, ft, ok) in names.items()}
+    body_entry = [y for y in b.succ.get(h, []) if y in loop]
+    # default path: every name test false
+    dflt = set()
+    for e0 in body_entry:
+        dflt |= steps_from(e0, all_true)
+    ctx.ob("parse_go_command:unknown-token-advances-by-one", dflt == {1}, b.where(b.term_loc(h)),
+           "when no known name matches, the index advances by %s per iteration (must be exactly 1, so the next token is examined)" % sorted(map(str, dflt)))
+    for nm, (s, tt, ft, ok) in sorted(names.items()):
+        st = steps_from(tt, set())
+        ctx.ob("parse_go_command:token(%s):consumes-name-and-value" % nm, st == {2}, b.where(b.term_loc(s)),
+               "after `%s <value>` the index advances by %s (must be 2)" % (nm, sorted(map(str, st))))
+
+
+
+BLOCKING = ("std::sync::mpsc::Receiver::<T>::recv", "std::sync::mpsc::Receiver::<T>::iter", "std::thread::JoinHandle::<T>::join",
+            "<std::sync::mpsc::Receiver<T> as std::iter::IntoIterator>::into_iter", "<&'a std::sync::mpsc::Receiver<T> as std::iter::IntoIterator>::into_iter",
+            "std::sync::Mutex::<T>::lock", "std::sync::Condvar::wait", "std::sync::Barrier::wait", "std::thread::park")
+
+
+def r8_3(ctx):
+    """The reply does not depend on the search thread's cooperation: (a) the only Sender is moved
+    into the search thread, so the channel disconnects when the search ends; (b) the reply path
+    makes no unbounded blocking call (recv / iter / join / lock)."""
+    f = ctx.facts
+    b = f.body(FIND)
+    ctx.note_fn(FIND)
+    ex = Exprs(b)
+    senders = [l for l in range(len(b.locals)) if b.local_ty(l).startswith("std::sync::mpsc::Sender<")]
+    ctx.floor("Sender locals in find_and_play_best_move", len(senders), 1)
+    import json
+    for l in senders:
+        moved_into_closure = False
+        other = []
+        pat = '"local": %d,' % l
+        for loc, st in b.iter_stmts():
+            if st["k"] != "assign":
+                continue
+            rv = st["rv"]
+            if rv["k"] == "aggregate" and rv.get("agg") == "closure":
+                for fo in rv["fields"]:
+                    if fo["k"] == "move" and fo["place"]["local"] == l and not fo["place"]["proj"]:
+                        moved_into_closure = True
+                    elif fo["k"] in ("copy", "move") and fo["place"]["local"] == l:
+                        other.append(loc)
+            elif pat in json.dumps(rv) or ('"local": %d}' % l) in json.dumps(rv):
+                # moves between temporaries of the same value are fine; borrows are not
+                if rv["k"] == "ref":
+                    other.append(loc)
+        for bb, t in b.iter_calls():
+            for a in t["args"]:
+                al = None
+                from wa.mir import operand_alias
+                al = operand_alias(b, a)
+                if al and al[0] == l:
+                    other.append(b.term_loc(bb))
+        # senders that are only temporaries on the way into the closure are identified by aliasing
+        if not moved_into_closure:
+            # maybe this local is moved into another Sender local that is (channel() tuple field moves)
+            feeds = [l2 for l2 in senders if l2 != l and any(
+                st["k"] == "assign" and st["place"]["local"] == l2 and st["rv"]["k"] == "use" and st["rv"]["op"]["k"] == "move" and
+                st["rv"]["op"]["place"]["local"] == l for _, st in b.iter_stmts())]
+            if feeds:
+                continue
+        ok = moved_into_closure and not other
+        ctx.ob("find_and_play_best_move:sender(%s):moved-into-search-thread" % b.lname(l), ok, b.where(other[0]) if other else b.file,
+               "the channel's Sender must be owned by the search thread alone (moved into the spawned closure: %s; other uses: %s) — a sender kept alive elsewhere means try_recv never reports Disconnected and a move-less search is waited for forever" % (
+                   moved_into_closure, [b.where(o) for o in other[:3]]))
+    for bb, t in b.iter_calls():
+        c = callee_of(t) or ""
+        if c in BLOCKING:
+            ctx.ob("find_and_play_best_move:blocking-call:%s" % c.split("::")[-1], False, b.where(b.term_loc(bb)),
+                   "`%s` blocks until the search thread acts; the reply must be sent on the command thread's own clock" % c)
+    ctx.ob("find_and_play_best_move:no-unbounded-blocking", True, b.file, "callees checked against the blocking list", nontrivial=False)
